@@ -661,10 +661,11 @@ EvalVariant(b, v) ==
       exact |-> CASE v.kind = "ignore" -> ExactIgnore(b.cfg, v.cfg, v.f, v.l, b.ev)
                   [] v.kind = "disable" -> ExactDisable(b.cfg, v.cfg, v.code, b.ev)
                   [] OTHER -> TRUE,
+      codes |-> CodeSets(b.cfg[v.mainf].enabled, b.cfg[v.mainf].disabled, v.addDis, v.addEn),
       newErr |-> IF v.kind = "enable" THEN NewErrors(v.cfg, b.cfg, evv) ELSE NewErrors(b.cfg, v.cfg, b.ev),
       iff |-> UnusedIff(v.cfg, evv) /\ NoCodeIff(v.cfg, evv) /\ ExitTruth(v.cfg, evv)]
 Eval(c) == LET B == Run(c.cfg, c.ev) IN
-  [out |-> FileOut(B), exit |-> Exit(B), iff |-> UnusedIff(c.cfg, c.ev) /\ NoCodeIff(c.cfg, c.ev) /\ ExitTruth(c.cfg, c.ev),
+  [out |-> FileOut(B), exit |-> Exit(B), codes |-> CodeSets({}, {}, c.addDis, c.addEn), iff |-> UnusedIff(c.cfg, c.ev) /\ NoCodeIff(c.cfg, c.ev) /\ ExitTruth(c.cfg, c.ev),
    vars |-> [k \in 1..Len(c.vars) |-> EvalVariant(c, c.vars[k])]]
 TraceInit == pc = "trace" /\ cur = 0 /\ cfg = <<>> /\ ev = <<>>
 TraceNext == /\ cur < Len(Cases) /\ cur' = cur + 1
@@ -807,7 +808,7 @@ def make_variants(case: Case, base_out: dict[str, list[Any]], tables: dict[str, 
     for t in items:
         by_line.setdefault(t[1], []).append(t)
     lines = sorted(by_line)
-    cap = 3 if tier == "quick" else 8
+    cap = 3 if tier == "quick" else 6
     chosen = lines if len(lines) <= cap else sorted(rnd.sample(lines, cap))
     subof = tables["subof"]
     right_of: dict[int, list[str]] = {}
@@ -839,7 +840,7 @@ def make_variants(case: Case, base_out: dict[str, list[Any]], tables: dict[str, 
         for t in tuples:
             if t[7] and t[7] not in present:
                 present.append(t[7])
-    ccap = 3 if tier == "quick" else 8
+    ccap = 3 if tier == "quick" else 6
     for c in (present if len(present) <= ccap else rnd.sample(present, ccap)):
         vs.append(Variant("disable", code=c, flags=["--disable-error-code", c], label="disable=" + c))
         if c in subof:
@@ -848,9 +849,25 @@ def make_variants(case: Case, base_out: dict[str, list[Any]], tables: dict[str, 
             vs.append(Variant("other", flags=["--disable-error-code", p, "--enable-error-code", c], label="disable=%s,enable=%s" % (p, c)))
         if tier != "quick" or rnd.random() < 0.5:
             vs.append(Variant("other", flags=["--disable-error-code", c, "--enable-error-code", c], label="disable+enable=" + c))
-    for c in rnd.sample(ENABLE_POOL, 1 if tier == "quick" else 3):
+    for c in rnd.sample(ENABLE_POOL, 1 if tier == "quick" else 2):
         vs.append(Variant("enable", code=c, flags=["--enable-error-code", c], label="enable=" + c))
     return vs
+
+
+def flag_codes(flags: list[str]) -> tuple[list[str], list[str]]:
+    """The codes named by --disable-error-code / --enable-error-code in a flag list."""
+    dis, en = [], []
+    i = 0
+    while i < len(flags):
+        fl = flags[i]
+        for opt, dst in (("--disable-error-code", dis), ("--enable-error-code", en)):
+            if fl == opt and i + 1 < len(flags):
+                dst.append(flags[i + 1])
+                i += 1
+            elif fl.startswith(opt + "="):
+                dst.append(fl.split("=", 1)[1])
+        i += 1
+    return dis, en
 
 
 def canon_cfg(cfg: dict[int, Any], nfiles: int) -> Any:
@@ -977,15 +994,18 @@ def process_cases(args: tuple[list[Case], int, str, dict[str, Any]]) -> dict[str
                         kind = "other"
             v.eval_kind = kind
             f_, l_ = (main_idx, v.placements[0][0]) if v.kind == "ignore" else (0, 0)
-            vtexts.append('[kind |-> %s, f |-> %d, l |-> %d, code |-> %s, same |-> %s, cfg |-> %s, ev |-> %s]' % (
-                tla_value(kind), f_, l_, tla_value(v.code), tla_value(same), tla_cfg(a["cfg"], nfiles),
-                "<<>>" if same else tla_ev(a["ev"])))
+            add_dis, add_en = flag_codes(v.flags)
+            vtexts.append('[kind |-> %s, f |-> %d, l |-> %d, code |-> %s, same |-> %s, mainf |-> %d, addDis |-> %s, addEn |-> %s, '
+                          'cfg |-> %s, ev |-> %s]' % (
+                              tla_value(kind), f_, l_, tla_value(v.code), tla_value(same), main_idx, tla_value(set(add_dis)),
+                              tla_value(set(add_en)), tla_cfg(a["cfg"], nfiles), "<<>>" if same else tla_ev(a["ev"])))
             kept.append((v, r, a))
             stats["kinds"][v.kind] = stats["kinds"].get(v.kind, 0) + 1
         for ident, desc in ab.code_objs.items():
             if ident not in tables["name"]:
                 extra_codes[ident] = desc
-        texts.append("[cfg |-> %s, ev |-> %s, vars |-> <<%s>>]" % (tla_cfg(b["cfg"], nfiles), tla_ev(b["ev"]), ", ".join(vtexts)))
+        texts.append("[cfg |-> %s, ev |-> %s, addDis |-> {}, addEn |-> {}, vars |-> <<%s>>]" % (
+            tla_cfg(b["cfg"], nfiles), tla_ev(b["ev"]), ", ".join(vtexts)))
         metas.append((case, extras, base, b, kept, nfiles, dict(ab.files), ab))
         stats["variants"] += len(kept)
 
@@ -1053,6 +1073,14 @@ def process_cases(args: tuple[list[Case], int, str, dict[str, Any]]) -> dict[str
             if bad:
                 problems.append(dict(rep, **{"class": "meta", "sig": meta_signature(ab, b, a, v),
                                              "what": "predicted from the other run's reports under this configuration: " + bad}))
+            got = a["cfg"].get(main_idx)
+            if got is not None and (sorted(vr["codes"]["enabled"]) != sorted(got["enabled"])
+                                    or sorted(vr["codes"]["disabled"]) != sorted(got["disabled"])):
+                problems.append(dict(rep, **{"class": "code-sets",
+                                             "what": "flags %s: mypy works with enabled=%s disabled=%s; the documented rule (enable overrides "
+                                                     "disable) gives enabled=%s disabled=%s" % (
+                                                         v.flags, sorted(got["enabled"]), sorted(got["disabled"]),
+                                                         sorted(vr["codes"]["enabled"]), sorted(vr["codes"]["disabled"]))}))
             if vr["newErr"]:
                 # output-level exactness: an error line is printed that the other run did not print
                 other = a["out"] if v.eval_kind == "enable" else b["out"]
@@ -1215,6 +1243,10 @@ def run_main_inprocess(args: list[str]) -> tuple[RunResult, int, str, str]:
     return res, code, out.getvalue(), err.getvalue()
 
 
+def main_name(files: dict[str, str]) -> str:
+    return "p.py" if "p.py" in files else "main.py"
+
+
 def cli_batch(args: tuple[list[Any], str, dict[str, Any], bool]) -> dict[str, Any]:
     """items: (key, flags, files{name: text}); every item is run through main.main in-process (recorded), TLC computes the
     specification's exit status from the recorded trace, and (optionally) the real `python -m mypy` subprocess is run too."""
@@ -1233,8 +1265,11 @@ def cli_batch(args: tuple[list[Any], str, dict[str, Any], bool]) -> dict[str, An
             with open(pth, "w", encoding="utf8") as f:
                 f.write(text)
         os.chdir(d)
-        main_file = "p.py" if "p.py" in files else "main.py"
-        argv = list(flags) + ["--no-site-packages", "--cache-dir", cache_dir, "--show-traceback", main_file]
+        main_file = main_name(files)
+        # A-single-writer: every run gets its own copy of the warm (typeshed-only) cache
+        import shutil
+        shutil.copytree(cache_dir, os.path.join(d, ".cache_a"))
+        argv = list(flags) + ["--no-site-packages", "--cache-dir", ".cache_a", "--show-traceback", main_file]
         res, code, out, err = run_main_inprocess(argv)
         stats["cli_inprocess"] += 1
         if res.crash:
@@ -1257,11 +1292,15 @@ def cli_batch(args: tuple[list[Any], str, dict[str, Any], bool]) -> dict[str, An
                 extra[ident] = desc
         sub = None
         if with_subprocess:
-            p = subprocess.run([PY, "-m", "mypy"] + argv, cwd=d, env=repo_env(), capture_output=True, text=True, timeout=600)
+            shutil.copytree(cache_dir, os.path.join(d, ".cache_b"))
+            argv_b = [".cache_b" if x == ".cache_a" else x for x in argv]
+            p = subprocess.run([PY, "-m", "mypy"] + argv_b, cwd=d, env=repo_env(), capture_output=True, text=True, timeout=600)
             sub = (p.returncode, p.stdout)
             stats["cli_subprocess"] += 1
         nfiles = max(len(ab.files), 1)
-        texts.append("[cfg |-> %s, ev |-> %s, vars |-> <<>>]" % (tla_cfg(a["cfg"], nfiles), tla_ev(a["ev"])))
+        add_dis, add_en = flag_codes(list(flags))
+        texts.append("[cfg |-> %s, ev |-> %s, addDis |-> %s, addEn |-> %s, vars |-> <<>>]" % (
+            tla_cfg(a["cfg"], nfiles), tla_ev(a["ev"]), tla_value(set(add_dis)), tla_value(set(add_en))))
         metas.append((key, argv, files, a, ab, code, out, sub, nfiles))
     os.chdir("/")
     results = evaluate_cases_with_tlc(texts, tables, extra, "cli batch") if texts else []
@@ -1276,7 +1315,14 @@ def cli_batch(args: tuple[list[Any], str, dict[str, Any], bool]) -> dict[str, An
         if bad:
             problems.append(dict(rep, **{"class": "trace", "what": bad}))
             continue
-        stats["exit_seen"][str(code)] = stats["exit_seen"].get(str(code), 0) + 1
+        stats["exit_seen"][str(res["exit"])] = stats["exit_seen"].get(str(res["exit"]), 0) + 1   # by the specification's value
+        main_cfg = a["cfg"].get(ab.files.get(main_name(files), -1))
+        if key.startswith("exit-family::") and main_cfg is not None and (
+                sorted(res["codes"]["enabled"]) != sorted(main_cfg["enabled"]) or sorted(res["codes"]["disabled"]) != sorted(main_cfg["disabled"])):
+            problems.append(dict(rep, **{"class": "code-sets",
+                                         "what": "mypy works with enabled=%s disabled=%s; the documented rule gives enabled=%s disabled=%s" % (
+                                             sorted(main_cfg["enabled"]), sorted(main_cfg["disabled"]),
+                                             sorted(res["codes"]["enabled"]), sorted(res["codes"]["disabled"]))}))
         if code != res["exit"]:
             errs = [ln for ln in out.splitlines() if re.match(r"^[^:\n]+:\d+(?::\d+)*: error: ", ln)]
             sig = None
@@ -1373,6 +1419,7 @@ def run_replay_file(path: str) -> int:
         warm_cache(cache_dir)
         flags = [a for a in rp["argv"] if a not in ("--no-site-packages", "--show-traceback")]
         flags = [a for i, a in enumerate(flags[:-1]) if a != "--cache-dir" and (i == 0 or flags[i - 1] != "--cache-dir")]
+        flags = [a for a in flags if not a.startswith(".cache_")]
         r = cli_batch(([(rp["key"], flags, rp["files"])], cache_dir, tables, True))
         for q in r["problems"]:
             print("%s %s: %s" % (q["class"], q["key"], q["what"]))
@@ -1480,12 +1527,13 @@ def main(argv: list[str]) -> int:
               "check-functools.test::testFunctoolsPartialUnion"}
     if tier == "quick":
         pool_cases = [c for c in corpus if c.key not in always]
-        chosen = [c for c in corpus if c.key in always] + rnd.sample(pool_cases, 150)
+        chosen = [c for c in corpus if c.key in always] + rnd.sample(pool_cases, 130)
     else:
         chosen = list(corpus)
         rnd.shuffle(chosen)
     B = 10 if tier == "quick" else 24
-    batches = [(gen_cases, 0, "thorough", tables)] + [(chosen[i:i + B], seed, tier, tables) for i in range(0, len(chosen), B)]
+    batches = [(gen_cases[i:i + 4], 0, "thorough", tables) for i in range(0, len(gen_cases), 4)] + \
+              [(chosen[i:i + B], seed, tier, tables) for i in range(0, len(chosen), B)]
     stats: dict[str, Any] = {}
     problems: list[dict[str, Any]] = []
     corpus_sample = None
@@ -1498,7 +1546,7 @@ def main(argv: list[str]) -> int:
         files = {"main.py": c.main}
         files.update({n: t for n, t in c.files if n not in ("builtins.pyi", "typing.pyi", "_typeshed.pyi")})
         cli_items.append(("cli::" + c.key, [f for f in c.flags if not f.startswith("--python-version")], files))
-    per = 6
+    per = 4
     cli_batches = [(cli_items[i:i + per], cache_dir, tables, i < len(EXIT_FAMILY) or tier != "quick") for i in range(0, len(cli_items), per)]
     cli_stats: dict[str, Any] = {}
     cli_problems: list[dict[str, Any]] = []
@@ -1566,11 +1614,11 @@ def main(argv: list[str]) -> int:
         "evaluations": replayed + n_traces,
         "distinct_nontrivial": stats.get("nontrivial", 0),
         "rule": "replay: every behaviour TLC emits for Gen_Errors_A/B/C (all ignore maps x code sets x flag sets x report sequences of the "
-                "bounded alphabets, <=2 reports); corpus: every single-step case of check-*.test (thorough) or a seeded sample of 150 + the "
+                "bounded alphabets, <=2 reports); corpus: every single-step case of check-*.test (thorough) or a seeded sample of 130 + the "
                 "cases with known findings (quick), plus %d generated programs always; per case: bare / right-code / all-codes / parent-code / "
                 "wrong-code / wrong-code+unused-ignore ignores on up to %d diagnostic lines, multi-line subsets, --disable-error-code for "
                 "present codes (and parents), disable+enable, --enable-error-code for default-off codes; non-trivial = a case in which at "
-                "least one variant changed the output" % (len(gen_cases), 3 if tier == "quick" else 8),
+                "least one variant changed the output" % (len(gen_cases), 3 if tier == "quick" else 6),
         "replayed_item_kinds": kinds_seen,
         "samples": samples + ([{"corpus": corpus_sample}] if corpus_sample else []),
         "tlc": cov,
